@@ -7,7 +7,8 @@ wt=$(mktemp -d /tmp/mutver.XXXXXX)
 git -C /repo worktree add -f --detach "$wt" HEAD -q || exit 3
 run_demo() {
   log=$(mktemp /tmp/mutver.log.XXXXXX)
-  ( cd "$wt" && PYTHONPATH="$wt" setsid timeout -s KILL 120 /venv/bin/python "$dir/demo.py" > "$log" 2>&1 ); rc=$?
+  mkdir -p "$wt/_mutants/v" && cp "$dir/demo.py" "$wt/_mutants/v/demo.py"   # demos may locate the library relative to themselves
+  ( cd "$wt" && PYTHONPATH="$wt" setsid timeout -s KILL 120 /venv/bin/python "$wt/_mutants/v/demo.py" > "$log" 2>&1 ); rc=$?
   pkill -KILL -f "$wt" 2>/dev/null
   tail -2 "$log" | cut -c1-160 | sed 's/^/      /' ; rm -f "$log"
   return $rc
